@@ -230,6 +230,8 @@ func gen(seed uint64, tier string) {
 	}
 	// streaming: scripted readers, several values on one stream, writers that are not bytes.Buffer (stream.go)
 	genStream(out, r, n)
+	// concurrent callers of the (pure) operations (cc.go)
+	genCC(out, r, tier)
 	// histories: many rejected decodes, then a valid round trip in the same process (state that leaks on
 	// error paths must not poison later calls); one line = one replayable history
 	for _, bad := range []string{"x", "x02", "x0101", "x01ff000000", "x010700000001000000", "x0107000000020000000101000000000000000000f03f000000000000004001"} {
@@ -354,6 +356,10 @@ func impl() {
 				res = implEncbo(p)
 			case "decin":
 				res = implDecin(p)
+			case "decbatch":
+				res = implDecbatch(p)
+			case "cc":
+				res = implCC(p)
 			case "rdrt":
 				kind := p.Next()
 				o := bo(p.Next())
